@@ -52,6 +52,12 @@ fn sweep_bases(pool: &[Base], hashes: &[HashId]) -> Vec<usize> {
 }
 
 #[derive(Clone, Debug, Serialize, Deserialize)]
+pub struct FreshCase {
+    pub sign: gen::SignCase,
+    pub muts: Vec<Mutation>,
+}
+
+#[derive(Clone, Debug, Serialize, Deserialize)]
 pub struct PairCase {
     pub hash: HashId,
     pub w: u32,
@@ -88,6 +94,58 @@ pub fn run(ctx: &Ctx) {
     for cl in ["chain-truncate|accepted", "field-edit|rejected", "level-from-other|rejected", "drop-level|rejected", "truncate|rejected", "extend|rejected"] {
         ctx.require_class("mutations", cl);
     }
+
+    // freshly signed triples of random shapes (not only the fixed pool), a handful of mutations each
+    let fresh = ctx.tier.pick(400u32, 8_000u32);
+    let budget = ctx.tier.pick(600_000u64, 6_000_000u64);
+    ctx.random(
+        "fresh_triples",
+        &|| {
+            use proptest::prelude::*;
+            (gen::sign_case(8, gen::HEIGHTS_STD, budget), proptest::collection::vec(wire::mutation_strategy(), 1..8))
+                .prop_map(|(sign, muts)| FreshCase { sign, muts })
+                .boxed()
+        },
+        fresh,
+        Opts { shrink_iters: 60, ..Opts::default() },
+        |c: &FreshCase| {
+            let h = c.sign.hash;
+            let n = h.n();
+            if siglen_exceeds_u16(h, &c.sign.levels) {
+                return pass("excluded-siglen", false);
+            }
+            let m = Model::with_overrides(h, &ov);
+            let seed = c.sign.seed.bytes(n);
+            let msg = c.sign.msg.bytes();
+            let sig = hss::sign(&m, &c.sign.levels, &seed, c.sign.counter as u128, &msg);
+            let pk = hss::public_key(&m, &c.sign.levels, &seed);
+            let parsed = match hss::parse_signature(&m, &sig, 64) {
+                Some(p) => p,
+                None => return fail("harness-bug", "model signature does not parse"),
+            };
+            let base = vec![Base { hash: h, levels: c.sign.levels.clone(), key_id: 0, counter: c.sign.counter, msg, sig, pk, parsed }];
+            // the unmutated model-signed triple must be accepted ...
+            match differential(&m, h, &base[0].msg, &base[0].sig, &base[0].pk, "unmutated") {
+                Ok(true) => {}
+                Ok(false) => return fail("harness-bug", "model rejects its own signature"),
+                Err((k, e)) => return fail(k, format!("{} [{} counter {}]", e, levels_str(&c.sign.levels), c.sign.counter)),
+            }
+            // ... and every mutation judged like the model judges it
+            let mut rejected = 0;
+            for mu in &c.muts {
+                let (t, class) = wire::apply(&base, 0, mu);
+                match differential(&m, h, &t.msg, &t.sig, &t.pk, class) {
+                    Ok(acc) => {
+                        if !acc {
+                            rejected += 1;
+                        }
+                    }
+                    Err((k, e)) => return fail(k, format!("{} [{} counter {} mutation {:?}]", e, levels_str(&c.sign.levels), c.sign.counter, mu)),
+                }
+            }
+            pass(format!("{}|{}|{}", h.name(), gen::shape_class(&c.sign.levels), if rejected > 0 { "some-rejected" } else { "all-accepted" }), true)
+        },
+    );
 
     // exhaustive byte / prefix sweep
     let hashes: Vec<HashId> = if ctx.quick() { vec![HashId::Sha256_128, HashId::Shake256_192] } else { ALL_HASHES.to_vec() };
